@@ -1049,6 +1049,76 @@ func ruleR19Steps(c *Ctx, prop string) {
 	c.decide(okStep, "R19", "R19:Slice:step-count", c.pos(site.Pos()),
 		"user steps reach Tensor.Slice only as 1 or with a divisibility test",
 		"a user-supplied step reaches gorgonia's Tensor.Slice unchecked: along axis 0 gorgonia takes (end-start)/step elements rounded down (ap.go AP.S), so [0:10:3] of a vector yields [0 3 6] where ONNX prescribes [0 3 6 9]")
+	// steps below 1: gorgonia treats a negative step like step 1 (AP.S takes the `step > 0` branch only for positive
+	// steps), lets a zero step through when the range has at most one element, and panics on [k:k:-1]; ONNX
+	// prescribes the reversed (or an empty) selection. Whatever the operator does not implement has to be refused.
+	okPos := !stepUser
+	if stepUser {
+		posGuard := func(b *ssa.BasicBlock) bool {
+			for _, g := range guardsOf(b) {
+				iff, ok := g.at.Instrs[len(g.at.Instrs)-1].(*ssa.If)
+				if !ok || !c.edgeRejects(iff, !g.truth) {
+					continue
+				}
+				cond := g.cond
+				truth := g.truth
+				for {
+					if u, ok := cond.(*ssa.UnOp); ok && u.Op == token.NOT {
+						cond, truth = u.X, !truth
+						continue
+					}
+					break
+				}
+				if call, ok := cond.(*ssa.Call); ok && truth {
+					if sc := call.Common().StaticCallee(); sc != nil && c.isRangeChecker(sc) && len(call.Common().Args) == 3 && tStep.has(call.Common().Args[0]) {
+						if lo, ok := constInt(call.Common().Args[1]); ok && lo >= 1 {
+							return true
+						}
+					}
+					// a predicate over the list alone: by table, it answers true for no list with an entry below 1
+					if sc := call.Common().StaticCallee(); sc != nil && len(call.Common().Args) == 1 && tStep.has(call.Common().Args[0]) && c.acceptsOnlyPositiveLists(sc) {
+						return true
+					}
+				}
+				for _, a := range atomsOf(g) {
+					// on the accepted edge: step >= 1, step > 0, 1 <= step, 0 < step
+					if k, ok := constInt(a.y); ok && tStep.has(a.x) && ((a.op == token.GEQ && k >= 1) || (a.op == token.GTR && k >= 0)) {
+						return true
+					}
+					if k, ok := constInt(a.x); ok && tStep.has(a.y) && ((a.op == token.LEQ && k >= 1) || (a.op == token.LSS && k >= 0)) {
+						return true
+					}
+				}
+			}
+			return false
+		}
+		okPos = posGuard(site.Block())
+		if !okPos {
+			f := site.Parent()
+			for _, b := range apply.Blocks {
+				for _, in := range b.Instrs {
+					if call, ok := in.(*ssa.Call); ok && call.Common().StaticCallee() == f && posGuard(b) {
+						okPos = true
+					}
+				}
+			}
+		}
+		if !okPos {
+			// a validation loop over the steps that completes before the slicers are built
+			okPos = guarded(site, func(a atom, cond ssa.Value) bool {
+				if k, ok := constInt(a.y); ok && tStep.has(a.x) && ((a.op == token.GEQ && k >= 1) || (a.op == token.GTR && k >= 0)) {
+					return true
+				}
+				if k, ok := constInt(a.x); ok && tStep.has(a.y) && ((a.op == token.LEQ && k >= 1) || (a.op == token.LSS && k >= 0)) {
+					return true
+				}
+				return false
+			})
+		}
+	}
+	c.decide(okPos, "R19", "R19:Slice:step-positive", c.pos(site.Pos()),
+		"user steps reach Tensor.Slice only after a rejecting test that they are at least 1",
+		"a user-supplied step reaches gorgonia's Tensor.Slice without a test that it is positive: gorgonia answers a negative step like step 1 ([0:3:-1] of [0..4] gives [0 1 2], ONNX an empty tensor), lets step 0 through for ranges of one element and panics on [k:k:-1] (slice bounds out of range) - a request the operator does not implement has to be refused with an error")
 	okRange := !rangeUser || guarded(site, func(a atom, cond ssa.Value) bool {
 		return (tStart.has(a.x) && tEnd.has(a.y) || tStart.has(a.y) && tEnd.has(a.x)) && (a.op == token.LSS || a.op == token.GTR || a.op == token.LEQ || a.op == token.GEQ)
 	})
@@ -1124,4 +1194,37 @@ func ruleSliceAxisIndex(c *Ctx, prop string) {
 	}
 	c.decide(bad == "", "R19", "R19:Slice:shape-by-axis", firstNonEmpty(badSite, c.pos(apply.Pos())),
 		fmt.Sprintf("no read of the data's shape at an entry position (%d shape reads inside loops over the entries)", n), bad)
+}
+
+// acceptsOnlyPositiveLists: a library function func([]int) bool that, walked over one- and two-element lists, answers
+// true for lists of positive entries and false as soon as an entry is below 1.
+func (c *Ctx) acceptsOnlyPositiveLists(f *ssa.Function) bool {
+	if f == nil || !isLibFn(f) || len(f.Blocks) == 0 || f.Signature.Params().Len() != 1 || f.Signature.Results().Len() != 1 {
+		return false
+	}
+	if bt, ok := f.Signature.Results().At(0).Type().Underlying().(*types.Basic); !ok || bt.Kind() != types.Bool {
+		return false
+	}
+	if st, ok := f.Signature.Params().At(0).Type().Underlying().(*types.Slice); !ok || !isIntType(st.Elem()) {
+		return false
+	}
+	n := 0
+	for _, l := range [][]int64{{-3}, {0}, {1}, {2}, {7}, {1, 0}, {0, 1}, {2, -1}, {1, 1}, {3, 2}} {
+		heap := newHeap()
+		pl := make([]pval, len(l))
+		pos := true
+		for i, v := range l {
+			pl[i] = pval{k: pInt, i: v}
+			if v < 1 {
+				pos = false
+			}
+		}
+		p := &pinterp{c: c, budget: 20000}
+		res, _ := p.run(f, []pval{heap.alloc(pl)}, 0, heap)
+		if len(res) != 1 || res[0].k != pBool || res[0].b != pos {
+			return false
+		}
+		n++
+	}
+	return n > 0
 }
